@@ -48,6 +48,10 @@ fn split_plans(len: usize) -> Vec<Vec<usize>> {
 fn subtree_cv(mode: &ModeSpec, offset: u64, bytes: &[u8], plan: &[usize]) -> Result<[u8; 32], String> {
     vcommon::catch(|| {
         let mut h = mode.hasher();
+        if plan.len() % 2 == 0 {
+            // the offset may be set more than once before any input: the last call wins
+            h.set_input_offset(if offset == 0 { 7 * 1024 } else { 0 });
+        }
         h.set_input_offset(offset);
         let mut at = 0;
         for &k in plan {
